@@ -1,6 +1,6 @@
 CONSTANTS ScanDepModules = TRUE
           StrictUnknown = TRUE
-          MaxMixed = 4
+          MaxMixed = 3
           MaxUniform = 11
           Names = {"main", "app2", "my_app", "_x1", "a"}
           Layouts = {"flat", "nested"}
